@@ -230,3 +230,24 @@ def compare_parts(node):
     if isinstance(node, ast.Compare) and len(node.ops) == 1:
         return node.left, type(node.ops[0]).__name__, node.comparators[0]
     return None
+
+
+def local_names(f):
+    """Names bound in function f (parameters, assignment / loop / with / comprehension targets)."""
+    out = set(f.params())
+    for n in ast.walk(f.node):
+        if isinstance(n, ast.Name) and isinstance(n.ctx, (ast.Store, ast.Del)):
+            out.add(n.id)
+        elif isinstance(n, ast.arg):
+            out.add(n.arg)
+    return out
+
+
+def require_locals(ctx, f, names, rule=""):
+    """The rules below refer to these locals of `f` by name. If one no longer exists (renamed), the rule
+    cannot judge the function: ANALYSIS-ERROR (exit 2), never a violation."""
+    have = local_names(f)
+    missing = [n for n in names if n not in have]
+    if missing:
+        ctx.broken("%s: %s no longer binds the local name(s) %s that the rule refers to (renamed?) - the rule must "
+                   "be re-anchored" % (rule or "anchor", f.qname, missing))
